@@ -32,7 +32,7 @@ def _run_chunk(args):
     from .. import stmt_drv as d
     out = []
     for c in cases:
-        sql = R.render(c["prog"], R.Opts(alias_scope=c.get("alias_scope", "global")))
+        sql = R.render(c["prog"], R.Opts(alias_scope=c.get("alias_scope", "global"), isub_form=c.get("isub_form", "plain")))
         for dia in dialects:
             if dia != "ansi" and not d.accepts(sql, dia):
                 out.append(None)
@@ -190,7 +190,14 @@ def run(chk):
     if quick:
         random.Random(chk.seed).shuffle(multi)
         multi = multi[:2500]
-    cases = cases + multi
+    # ... and the programs with a select-list subquery once more with that subquery elsewhere in the item: ELSE / THEN branch of a
+    # CASE, argument of a function, argument of a function inside an expression
+    rnd_ = random.Random(chk.seed + 11)
+    nested = [dict(c, isub_form=rnd_.choice(["else", "then", "func", "func_in_expr"])) for c in cases if any(e["e"] == "isub" for e in c["prog"])]
+    if quick:
+        rnd_.shuffle(nested)
+        nested = nested[:1500]
+    cases = cases + multi + nested
     pool = mp.Pool(16)
     try:
         res = pool.map(_run_chunk, [(c, ["ansi"]) for c in chunks(cases, 64)])
